@@ -168,8 +168,24 @@ type preset struct {
 
 func runE2(engine string, pk pathKind, o *stack.Olla, a, b *stack.Backend) {
 	var others [][2]string
-	for i := 0; i < 40; i++ {
-		others = append(others, [2]string{fmt.Sprintf("X-Tok-%02d", i), fmt.Sprintf("v%d", i)})
+	// 40 token-named headers: a token (RFC 7230) is any run of letters, digits and ! # $ % & ' * + - . ^ _ ` | ~ ;
+	// every one of those characters appears inside, at the start and at the end of a name, next to single-character,
+	// digit-only, lower-case and very long names. Values carry commas, quotes, tabs, inner blanks and non-ASCII bytes.
+	values := []string{"v%d", "a, b;q=0.%d", "\"quoted %d\"", "tab\there %d", "caf\xc3\xa9 %d", "x=y&z=%d", "%d  two  blanks"}
+	var toks []string
+	for _, c := range "!#$%&'*+-.^_`|~" {
+		toks = append(toks, fmt.Sprintf("X%cTok%c%02d", c, c, len(toks)))
+	}
+	for _, c := range "!#$%&'*+.^_`|~" {
+		if len(toks) < 22 {
+			toks = append(toks, string(c)+"lead")
+		} else if len(toks) < 29 {
+			toks = append(toks, "trail"+string(c))
+		}
+	}
+	toks = append(toks, "Z", "7", "2024", "x-lower-tok", "X_Under_Score", "X.Trace.Id", "Tenant~Id", "Client!Tag", "Build#Number", "X-Tok-Plain", "X-"+strings.Repeat("Long", 50))
+	for i, n := range toks {
+		others = append(others, [2]string{n, fmt.Sprintf(values[i%len(values)], i)})
 	}
 	others = append(others, [2]string{"X-Multi", "one"}, [2]string{"X-Multi", "two"}, [2]string{"X-Empty", ""})
 	presets := []preset{
